@@ -96,3 +96,22 @@ Proof.
   split; [apply all_okb_sound; vm_compute; reflexivity|].
   split; [vm_compute; reflexivity|]. split; vm_compute; reflexivity.
 Qed.
+
+(* the default-chain shape: start epoch 0, marker 0 from genesis, first epoch number 1; period 2, factor 1/2, no receivers *)
+Definition nv0_cfg : config :=
+  mkConfig 400000000000000000 300000000000000000 200000000000000000 100000000000000000
+           500000000000000000 2 0 [] [] 0.
+
+Lemma nv0_schedule :
+  valid_cfg nv0_cfg /\ history_start_ok nv0_cfg w_state 1 /\ ~ 1 <= p_start nv0_cfg /\
+  all_ok nv0_cfg w_state (consec 1 6) /\
+  map (fun n => reduces nv0_cfg (run nv0_cfg w_state (consec 1 n)) (1 + Z.of_nat n)) (seq 0 6)
+    = [false; true; false; true; false; true] /\
+  s_prov (run nv0_cfg w_state (consec 1 6)) = 125000462500000000000000.
+Proof.
+  split; [apply valid_cfgb_sound; vm_compute; reflexivity|].
+  split; [right; vm_compute; repeat split; discriminate|].
+  split; [vm_compute; intros H; apply H; reflexivity|].
+  split; [apply all_okb_sound; vm_compute; reflexivity|].
+  split; vm_compute; reflexivity.
+Qed.
